@@ -629,6 +629,21 @@ def call_builtin(ex, name, args, kw, node):
         if fname in ("builtin:float", "builtin:int"):
             return DefaultDictEmpty(z3.RealVal(0) if fname.endswith("float") else z3.IntVal(0))
         raise Unsupported("defaultdict with a factory other than float / int")
+    if name in ("np.zeros", "np.empty") and len(args) == 1 and not isinstance(args[0], Tup):
+        # 1-D integer / float arrays of a given length: zeros, or arbitrary content (np.empty)
+        n = to_num(args[0])
+        ex.oblige(f"{ex.qualname}/array_length_nonneg@{ex.cur_line - ex.fnode.lineno}", n >= 0, "safety")
+        ex.assume(n >= 0)
+        dt = kw.get("dtype")
+        dname = getattr(dt, "name", "") or ""
+        sort = z3.IntSort() if "int" in dname else z3.RealSort()
+        if name == "np.zeros":
+            arr = z3.K(z3.IntSort(), z3.IntVal(0) if sort == z3.IntSort() else z3.RealVal(0))
+        else:
+            arr = z3.Const(fresh_name("np.empty"), z3.ArraySort(z3.IntSort(), sort))
+        r = SeqV(sort, arr, n)
+        r.is_ndarray = True
+        return r
     if name in ("np.maximum", "np.minimum") and len(args) == 2:
         xs = [to_num(a) for a in args]
         if any(not t.is_int() for t in xs):
